@@ -64,7 +64,17 @@ def monitor(ck, cfg, xs):
     trace = []
     width_prev = 0
     tol = 1e-7
+    t_upd = 0
     for i, v in enumerate(xs):
+        if v == "R":
+            d.reset()
+            seen, width_prev, t_upd = [], 0, 0
+            trace.append(DET.observe(d))
+            if int(d.width) != 0 or float(d.total) != 0.0 or float(d.variance) != 0.0 or bool(d.drift) or any(int(b.idx) for b in d.buckets):
+                ck.violation(dict(clause="suffix-window", after="reset"), dict(what="window not empty after reset()", config=cfg, stream=xs[: i + 1], rows=[int(b.idx) for b in d.buckets], width=int(d.width)))
+                return trace, False
+            continue
+        t_upd += 1
         try:
             d.update(value=v)
         except Exception as e:  # noqa: BLE001
@@ -74,7 +84,7 @@ def monitor(ck, cfg, xs):
         trace.append(DET.observe(d))
         w = int(d.width)
         detail = dict(config=cfg, stream=xs[: i + 1], step=i, width=w, width_before=width_prev)
-        scale = max(1.0, max(abs(x) for x in seen))
+        scale = max(1.0, max(abs(x) for x in xs if x != "R"))
         # (a) exact suffix window
         if not (0 < w <= len(seen)):
             ck.violation(dict(clause="suffix-window"), dict(what="width out of range", **detail))
@@ -89,7 +99,7 @@ def monitor(ck, cfg, xs):
             ck.violation(dict(clause="buckets"), dict(what="bucket sizes do not add up to width or a row holds more than m buckets", rows=rows, **detail))
             return trace, False
         shrunk = w < width_prev + 1
-        is_check = (i + 1) % cfg["clock"] == 0 and width_prev + 1 > cfg["min_num_instances"]
+        is_check = t_upd % cfg["clock"] == 0 and width_prev + 1 > cfg["min_num_instances"]
         # (c) shrinks only at checks
         if shrunk and not is_check:
             ck.violation(dict(clause="shrink-only-at-check"), dict(what="window shrank outside a check", **detail))
@@ -140,7 +150,7 @@ def run(ck: Check):
     thorough = ck.tier == "thorough"
     ck.rule(
         "non-negative streams with one to three mean shifts / constants / noise / cancellation-prone magnitudes, m in {1,2,3,5}, clock in {1,2,4,32}, "
-        "runs continue after detections (no reset); after EVERY update the implementation's window is recomputed from the raw stream; non-trivial = the window shrank at least once"
+        "runs continue after detections; a third of the histories contain one or two reset() calls in mid-stream (the window must be empty after it and exact again afterwards); after EVERY update the implementation's window is recomputed from the raw stream; non-trivial = the window shrank at least once"
     )
     cases, impl = [], []
     import glob, json, os
@@ -165,9 +175,15 @@ def run(ck: Check):
                 xs = xs[:n]
                 cfg["delta"] = 0.9
                 cfg["min_window_size"] = 1
+        if it >= len(corpus) and rng.random() < 0.35 and n > 12:
+            # reset() in mid-stream (row 0 non-empty, possibly right after a shrink), then the stream goes on
+            for _ in range(rng.choice([1, 2])):
+                pos = rng.randrange(3, len(xs) - 2)
+                if xs[pos] != "R" and xs[pos - 1] != "R" and xs[pos + 1] != "R":
+                    xs = xs[:pos] + ["R"] + xs[pos:]
         trace, ok = monitor(ck, cfg, xs)
         nshrink = sum(1 for t in trace if t[0])
-        ck.case(dict(config=cfg, n=n, head=xs[:6], shrinks=nshrink), nontrivial=nshrink > 0, key=repr((cfg, xs)))
+        ck.case(dict(config=cfg, n=n, head=xs[:6], shrinks=nshrink, resets=xs.count("R")), nontrivial=nshrink > 0, key=repr((cfg, xs)))
         ck.count("updates", len(trace))
         ck.count("shrinking_updates", nshrink)
         if ok:
